@@ -7,6 +7,7 @@
    constructed here, so the driver holds no protocol knowledge:
 
      shape  "oneline": one long field line        "many": many short field lines
+            "fold": one field followed by hn short obs-fold continuation lines
      hn     padding amount (length of the long line / number of short lines)
      bk     body kind "none" | "cl" | "chunked" | "close" (close-delimited, responses only)
      bn     body size in octets
@@ -38,7 +39,9 @@ CRLF == "\r\n"
 StartLine == IF View = "server" THEN "POST /p HTTP/1.1" ELSE "HTTP/1.1 200 OK"
 Fixed == IF View = "server" THEN "Host: h" ELSE "Server: s"
 
-PadLines(shape, n) == IF shape = "oneline" THEN <<"X-Pad: " \o Rep("a", n)>> ELSE [i \in 1..n |-> "X: v"]
+PadLines(shape, n) == IF shape = "oneline" THEN <<"X-Pad: " \o Rep("a", n)>>
+                      ELSE IF shape = "fold" THEN <<"X-Pad: a">> \o [i \in 1..n |-> " b"]   \* one field + n obs-fold continuation lines
+                      ELSE [i \in 1..n |-> "X: v"]
 FrameLine(bk, bn) == CASE bk = "cl" -> <<"Content-Length: " \o ToString(bn)>>
                        [] bk = "chunked" -> <<"Transfer-Encoding: chunked">>
                        [] OTHER -> <<>>
@@ -73,8 +76,11 @@ MaxHdr(s) == Limit(s.rh, Hmin(s), Hfull(s))
 MaxBody(s) == Limit(s.rb, Bmin(s), Bfull(s))
 
 Over(l, x) == l >= 0 /\ x > l
+(* obs-fold may itself be refused (RFC 9112 5.2: reject or replace by SP): such a message never HAS to be delivered,
+   but an oversize one still must not be *)
 Verdict(s) ==
   IF Over(MaxHdr(s), Hmin(s)) \/ Over(MaxBody(s), Bmin(s)) THEN "refuse"
+  ELSE IF s.shape = "fold" /\ s.hn > 0 THEN "either"
   ELSE IF ~Over(MaxHdr(s), Hfull(s)) /\ ~Over(MaxBody(s), Bfull(s)) THEN "deliver"
   ELSE "either"
 Bound(s) == IF MaxHdr(s) < 0 \/ MaxBody(s) < 0 THEN -1
@@ -98,6 +104,7 @@ Next == RaiseH \/ RaiseB
 
 (* the reference never lets an oversize message through, whatever the measure *)
 NeverDeliverOversize ==
+  (Verdict(sc) # "refuse" => ~Over(MaxHdr(sc), Hmin(sc)) /\ ~Over(MaxBody(sc), Bmin(sc))) /\
   Verdict(sc) = "deliver" => /\ (MaxHdr(sc) < 0 \/ Hfull(sc) <= MaxHdr(sc))
                              /\ (MaxBody(sc) < 0 \/ Bfull(sc) <= MaxBody(sc))
                              /\ Hmin(sc) <= Hfull(sc) /\ Bmin(sc) <= Bfull(sc)
